@@ -153,10 +153,10 @@ check("C16",
       "Model/Snap.v: what PCE500Emulator.save_snapshot keeps (register blob of C08, RAM, internal memory, display/keyboard payloads kept abstract, timer and interrupt bookkeeping) and what load_snapshot does to a freshly constructed machine (including the USR bits it forces). "
       "Coq theorems: for every running machine state whose USR bits are in the firmware-visible form, load(save(m)) into any fresh machine gives back m exactly, hence - by induction over any step function and any input list - the same future step for step; "
       "two refuted witnesses (a halted machine restores as running; the key-interrupt latch is dropped). "
-      "Every run, on PCE500Emulator and CoreRuntime: the C12 machine scenarios with every step index (sampled in quick) as snapshot point, bundle written to disk and loaded into a fresh machine, original and restored continued with the same inputs and compared step for step plus a digest of RAM/internal memory/display; "
+      "Every run, on PCE500Emulator and CoreRuntime: the C12 machine scenarios (45% of them with all key columns strobed and matrix keys pressed/released at random steps) with every step index (sampled in quick) as snapshot point, bundle written to disk and loaded into a fresh machine, original and restored continued with the same inputs and compared step for step plus a digest of RAM/internal memory/display; "
       "and cross loading both ways (Rust bundle into the Python loader, Python bundle into the Rust loader), the loader must show the saver's state.",
       "Trusted: Coq kernel, harness irq_cmd.py / irq_cmd.rs (temporary bundles under .build/tmp; Python members re-stored uncompressed for the Rust zip shim). Modelled and proved: the Python save/load field bookkeeping. NOT modelled: the Rust bundle, keyboard/LCD snapshot internals, the step function (a parameter of the theorem) - decided by the continuation comparison, so the level is partial. "
-      "Known findings: Python bundles neither write nor read the halted/off state (and drop the key latch); Rust bundles drop the ON-key level. Fixed: Python rejected every Rust bundle (TEMP<n> keys).",
+      "Known findings: Python bundles neither write nor read the halted/off state (and drop the key latch); Rust bundles drop the ON-key level and clear the key-interrupt latch on restore; the keyboard metadata schema differs between the implementations (matrix state lost on cross loading, both directions). Fixed: Python rejected every Rust bundle (TEMP<n> keys).",
       "Coq proof (record equality through the C08 blob round trip, induction over inputs; refutations by vm_compute) + snapshot-at-every-step continuation comparison on Python and Rust + cross-implementation loading",
       "DESIGN.md 5 C16")
 
